@@ -66,6 +66,37 @@ type c07Case struct {
 	// "unknown-bad-shape" = an unregistered name with a claims type that has
 	// no usable profile field; "existing" = built-in names with another type
 	FailedReg []string `json:"failed_registrations,omitempty"`
+	// JSON only: write the profile strings / member names with escape
+	// sequences that mean the same text (\/ for /, \uXXXX for a letter)
+	EscVal bool `json:"escaped_profile_values,omitempty"`
+	EscKey bool `json:"escaped_member_names,omitempty"`
+	// ExtTS: value of the extension's own claim (-75100 / "timestamp"); the
+	// harness's extension profiles reject negative values in Validate()
+	ExtTS *int64 `json:"extension_timestamp,omitempty"`
+}
+
+// jsonEscapedString renders s as a JSON string using non-canonical but
+// equivalent escapes.
+func jsonEscapedString(s string) string {
+	var sb strings.Builder
+	sb.WriteByte('"')
+	for i, r := range s {
+		switch {
+		case r == '/':
+			sb.WriteString(`\/`)
+		case r == '"' || r == '\\':
+			sb.WriteByte('\\')
+			sb.WriteRune(r)
+		case r < 0x20:
+			fmt.Fprintf(&sb, `\u%04x`, r)
+		case i%5 == 2 && r < 0x80:
+			fmt.Fprintf(&sb, `\u%04X`, r)
+		default:
+			sb.WriteRune(r)
+		}
+	}
+	sb.WriteByte('"')
+	return sb.String()
 }
 
 func (c *c07Case) registered() []regProf {
@@ -121,6 +152,9 @@ func (c *c07Case) cborToken(withS2 bool) []byte {
 	}
 	if n := slotCBOR(c.S1); n != nil {
 		ps = append([][2]*icbor.Node{icbor.P(icbor.I(-75000), n)}, ps...)
+	}
+	if c.ExtTS != nil {
+		ps = append(ps, icbor.P(icbor.I(-75100), icbor.I(*c.ExtTS)))
 	}
 	if n := slotCBOR(c.S2); n != nil && withS2 {
 		// in the middle: dispatch must not depend on position
@@ -236,7 +270,24 @@ func (c *c07Case) jsonDoc(withS2 bool) []byte {
 		o.keys = append(o.keys, "x-profile")
 		o.vals = append(o.vals, v)
 	}
-	return []byte(o.String())
+	if c.ExtTS != nil {
+		o.keys = append(o.keys, "timestamp")
+		o.vals = append(o.vals, jNum(fmt.Sprint(*c.ExtTS)))
+	}
+	if c.EscVal {
+		for i, v := range o.vals {
+			if v.kind == 's' && strings.HasSuffix(o.keys[i], "-profile") {
+				o.vals[i] = jRaw(jsonEscapedString(v.raw))
+			}
+		}
+	}
+	doc := o.String()
+	if c.EscKey {
+		for _, k := range []string{"psa-profile", "eat-profile", "x-profile", "psa-nonce", "psa-client-id"} {
+			doc = strings.Replace(doc, `"`+k+`":`, jsonEscapedString(k)+":", 1)
+		}
+	}
+	return []byte(doc)
 }
 
 // ---- reference dispatcher ----
@@ -413,11 +464,18 @@ func c07Check(c *c07Case) string {
 			if err := ev.UnmarshalCOSE(b); err != nil {
 				return nil, err
 			}
-			if err := ev.Claims.Validate(); err != nil {
-				return nil, err
+			verr := ev.Claims.Validate()
+			ev2, err2 := psatoken.DecodeAndValidateEvidenceFromCOSE(b)
+			if (err2 == nil) != (verr == nil) {
+				// report it as an acceptance so that the caller's oracle sees
+				// the gate that let the token through
+				if err2 == nil {
+					return ev2.Claims, nil
+				}
+				return nil, err2
 			}
-			if ev2, err := psatoken.DecodeAndValidateEvidenceFromCOSE(b); err != nil || fmt.Sprintf("%T", ev2.Claims) != fmt.Sprintf("%T", ev.Claims) {
-				return nil, fmt.Errorf("DecodeAndValidateEvidenceFromCOSE disagrees with UnmarshalCOSE+Validate on a used Evidence: %v", err)
+			if verr != nil {
+				return nil, verr
 			}
 			return ev.Claims, nil
 		}
@@ -467,6 +525,11 @@ func c07Check(c *c07Case) string {
 	}
 	sel, view := ex.Sel, ex.View
 	valid := view.Valid() && !c.viewBroken(sel)
+	if c.ExtTS != nil && *c.ExtTS < 0 && (sel.Type == "*checks.ExtP2Claims" || sel.Type == "*checks.ExtP1Claims") {
+		// the selected extension profile's OWN rule (beyond the ten standard
+		// claims): a token is validated under the rules of the profile it declares
+		valid = false
+	}
 	if err == nil {
 		if got := fmt.Sprintf("%T", r); got != sel.Type {
 			return fmt.Sprintf("token declaring %q (registered: %v) was decoded as %s, not %s\n  slots psa-profile=%s eat-profile=%s x-profile=%s\n  token: %s", sel.Name, c.Reg, got, sel.Type, c.S1, c.S2, c.SX, show())
@@ -572,8 +635,8 @@ func drawSlot(t *rapid.T, label string, kinds []string) slotVal {
 }
 
 func TestC07_Dispatch(t *testing.T) {
-	st := NewStats("C07", "TestC07_Dispatch", "rapid: a body of profile-1 or profile-2 claims (valid, or with 1..2 rule deviations) in CBOR (independent encoder; optionally with the other profile's complete body mixed in), the same CBOR as payload of a signed COSE envelope decoded by an Evidence that is fresh or already holds claims of either profile (decoded, attached, or after a failed decode), or JSON (harness's own writer); optionally after registrations that must be refused (existing names, claims types without usable profile field), combined with every class of profile claim under each profile's key/member (-75000 / 265, psa-profile / eat-profile / x-profile): absent, null, undefined, empty, non-text, one of 24 names (the two built-ins, three extension names, unknown URIs, and look-alikes that case / URL / whitespace normalisation would map onto a registered name), under one key or both; with every subset of three extra profiles registered through the checkpoint hook (an extension of profile 2 sharing eat-profile, an extension of profile 1 sharing psa-profile, one with its own JSON member). Oracle: reference dispatcher (CBOR: key 265 absent -> profile 1, registered name -> that profile, other text -> error; JSON: exactly one registered name matched -> it, a present non-null profile member matching nothing or two profiles matched -> error, none present -> profile 1); result type = selected profile's; decode-and-validate succeeds iff the token is valid under THAT profile's rules (independent model, cross-read member names); accepted token reports the declared name and the wire values; NewClaims(p) reports p for every registered p and fails otherwise. Key 265 holding ''/null/undefined/non-text or the profile-1 name: error or identical to the token without it. Non-trivial = profile claim not simply present-and-matching with nothing else registered; distinct = format + slots + registered set + validity class")
-	st.Require = []string{"cbor", "json", "cose", "cose-used-evidence", "after-refused-registration", "expect=error", "expect=soft", "expect=selected-valid", "expect=selected-invalid", "sel=default", "sel=extension", "reg=0", "reg>0", "both-keys", "cross-profile"}
+	st := NewStats("C07", "TestC07_Dispatch", "rapid: a body of profile-1 or profile-2 claims (valid, or with 1..2 rule deviations) in CBOR (independent encoder; optionally with the other profile's complete body mixed in), the same CBOR as payload of a signed COSE envelope decoded by an Evidence that is fresh or already holds claims of either profile (decoded, attached, or after a failed decode), or JSON (harness's own writer; profile strings and member names optionally written with equivalent escape sequences); tokens for the extension profiles may carry the extension's own claim with a value its Validate() rejects; optionally after registrations that must be refused (existing names, claims types without usable profile field), combined with every class of profile claim under each profile's key/member (-75000 / 265, psa-profile / eat-profile / x-profile): absent, null, undefined, empty, non-text, one of 24 names (the two built-ins, three extension names, unknown URIs, and look-alikes that case / URL / whitespace normalisation would map onto a registered name), under one key or both; with every subset of three extra profiles registered through the checkpoint hook (an extension of profile 2 sharing eat-profile, an extension of profile 1 sharing psa-profile, one with its own JSON member). Oracle: reference dispatcher (CBOR: key 265 absent -> profile 1, registered name -> that profile, other text -> error; JSON: exactly one registered name matched -> it, a present non-null profile member matching nothing or two profiles matched -> error, none present -> profile 1); result type = selected profile's; decode-and-validate succeeds iff the token is valid under THAT profile's rules (independent model, cross-read member names); accepted token reports the declared name and the wire values; NewClaims(p) reports p for every registered p and fails otherwise. Key 265 holding ''/null/undefined/non-text or the profile-1 name: error or identical to the token without it. Non-trivial = profile claim not simply present-and-matching with nothing else registered; distinct = format + slots + registered set + validity class")
+	st.Require = []string{"cbor", "json", "cose", "cose-used-evidence", "after-refused-registration", "json-escapes", "extension-own-rule-violated", "expect=error", "expect=soft", "expect=selected-valid", "expect=selected-invalid", "sel=default", "sel=extension", "reg=0", "reg>0", "both-keys", "cross-profile"}
 	defer st.Flush(t)
 	registerMu.Lock()
 	defer registerMu.Unlock()
@@ -581,6 +644,14 @@ func TestC07_Dispatch(t *testing.T) {
 		c := &c07Case{Format: rapid.SampledFrom([]string{"cbor", "json", "cbor", "json", "cose"}).Draw(t, "format")}
 		if c.Format == "cose" {
 			c.Prior = rapid.SampledFrom([]string{"fresh", "decoded-p1", "decoded-p2", "setclaims-p1", "setclaims-p2", "failed-decode"}).Draw(t, "prior")
+		}
+		if c.Format == "json" {
+			c.EscVal = rapid.IntRange(0, 3).Draw(t, "escval") == 0
+			c.EscKey = rapid.IntRange(0, 5).Draw(t, "esckey") == 0
+		}
+		if rapid.IntRange(0, 2).Draw(t, "ext.ts") == 0 {
+			ts := rapid.SampledFrom([]int64{0, 1, 1700000000, -1, -1700000000, 1 << 40}).Draw(t, "ext.ts.val")
+			c.ExtTS = &ts
 		}
 		switch rapid.IntRange(0, 5).Draw(t, "failedreg") {
 		case 0:
@@ -665,6 +736,12 @@ func TestC07_Dispatch(t *testing.T) {
 		if len(c.FailedReg) > 0 {
 			defer st.Class("after-refused-registration")
 		}
+		if c.EscVal || c.EscKey {
+			defer st.Class("json-escapes")
+		}
+		if c.ExtTS != nil && *c.ExtTS < 0 && !ex.Err && !ex.Soft && ex.Sel != nil && ex.Sel.Impl != nil {
+			defer st.Class("extension-own-rule-violated")
+		}
 		cls := []string{c.Format}
 		switch {
 		case ex.Err:
@@ -701,7 +778,7 @@ func TestC07_Dispatch(t *testing.T) {
 		if !simple {
 			regs := append([]int{}, c.Reg...)
 			sort.Ints(regs)
-			key = fmt.Sprintf("%s|%s|%v|%v|%v|%v|%v|%v|%s", c.Format, c.Prior, c.FailedReg, c.S1, c.S2, c.SX, regs, c.Other != nil, strings.Join(cls, ","))
+			key = fmt.Sprintf("%v%v%v|%s|%s|%v|%v|%v|%v|%v|%v|%s", c.EscVal, c.EscKey, c.ExtTS != nil && *c.ExtTS < 0, c.Format, c.Prior, c.FailedReg, c.S1, c.S2, c.SX, regs, c.Other != nil, strings.Join(cls, ","))
 			if body.Valid() {
 				key += "|" + q.String()
 			} else {
